@@ -219,9 +219,22 @@ func L3(thorough bool) []*Grammar {
 				q = append(q, g)
 			}
 		}
-		return q
+		gs = q
 	}
-	return gs
+	// single-character definitions (character classes) against literal patterns matching the same text, in both
+	// declaration orders: priority must not depend on whether a lexeme ends through a definition
+	cls := []LexDef{{"_c", "reg", RAB}, {"_d", "reg", AltP(A, B)}}
+	viaDef := []*Pat{Seq(Ref("_c"), Rep(Ref("_c"))), Ref("_c"), Seq(Ref("_c"), Ref("_d")), Seq(A, Ref("_c")), Rep(Ref("_d")), Seq(Opt(A), Ref("_d"))}
+	plain := []*Pat{A, Seq(A, B), Seq(A, A), B, Seq(B, A), RAB}
+	for _, p := range viaDef {
+		for _, q := range plain {
+			gs = append(gs,
+				&Grammar{Lex: append([]LexDef{{"t", "tok", p}, {"u", "tok", q}}, cls...)},
+				&Grammar{Lex: append([]LexDef{{"u", "tok", q}, {"t", "tok", p}}, cls...)},
+				&Grammar{Lex: append([]LexDef{{"t", "tok", p}, {"!u", "ign", q}}, cls...)})
+		}
+	}
+	return dedupe(gs)
 }
 
 // L4: string literals of the syntax part against named patterns matching the same text.
